@@ -1,5 +1,7 @@
 package main
 
+import "time"
+
 // Per-property plans: which stages run in which tier. Case counts are per shard.
 
 func rapidStage(checks int) stage {
@@ -62,7 +64,8 @@ var plans = map[string]plan{
 	},
 	"C03": {
 		Quick:    []stage{rapidStage(1_000)},
-		Thorough: []stage{rapidStage(6_000)},
+		Thorough: []stage{rapidStage(3_000)},
+		Timeout:  90 * time.Minute, // a case is several load / marshal round trips through JSON and YAML: about ten a second per process
 		Rule:     "cases are OpenAPI 3.0.3 (2/3) and Swagger 2.0 (1/3) documents drawn from a meta-model of every object kind: any subset of optional fields, YAML-hostile strings, x- extensions with arbitrary JSON, unknown fields, references to components; 1 in 5 is de-normalised (redundant defaults, siblings next to $ref). Checked: R1 J(L(D)) = D (normal form), R2 J(L(J(L(D)))) = J(L(D)) and the same through YAML output, R3 YAML input = JSON input. non-trivial = the document populates >= 12 distinct (kind, field) pairs and carries at least one extension. distinct = FNV-64a of the canonical case JSON. coverage.extra lists how often each (kind, field) pair was populated.",
 		Assume: []string{
 			"equality is equality of parsed JSON values with numeric equality",
